@@ -210,6 +210,27 @@ def check(res, rule="PY-TAINT"):
                            "before modifying anything for writes)" % (
                                where, raw.get(name, "key"), sink,
                                SANITISER.get(raw.get(name, "key"), "_to_key")), path=[]))
+            if mname not in READS:
+                # a write decides presence through the converted key, never through a read:
+                # reads answer "absent" for a key outside the domain, a write must raise TypeError
+                keys = [p_ for p_, role in raw.items() if role == "key"]
+                for c in ast.walk(fn):
+                    hit = None
+                    if isinstance(c, ast.Compare) and len(c.ops) == 1 and isinstance(c.ops[0], (ast.In, ast.NotIn)) \
+                            and isinstance(c.left, ast.Name) and c.left.id in keys and \
+                            pyfront.unparse(c.comparators[0]) == "self":
+                        hit = pyfront.unparse(c)
+                    elif isinstance(c, ast.Call) and isinstance(c.func, ast.Attribute) and \
+                            pyfront.unparse(c.func.value) == "self" and c.func.attr in READS and c.args and \
+                            isinstance(c.args[0], ast.Name) and c.args[0].id in keys:
+                        hit = pyfront.unparse(c)
+                    if hit:
+                        res.findings.add(dict(
+                            rule=rule, function=where, file=REL, line=c.lineno,
+                            construct="%s decides presence of the raw key through a read (%s)" % (fn.name, hit[:40]),
+                            detail="the read entry points translate the TypeError of an unusable key into "
+                                   "absence; a modifying method that asks them first answers KeyError / the "
+                                   "default for such a key, where the C type raises TypeError", path=[]))
             if mname in READS:
                 for call, role, tr in t.sanitised:
                     if role == "key" and _absence_handler(tr, mname):
